@@ -256,9 +256,14 @@ def main(argv=None):
                 harness_errors.append(f"{name}[{res.get('part_index')}]/{mode}: {v}: {r.get('message') or r.get('detail')}")
             else:
                 s["unknown"] += 1
-                inconclusive.append(
-                    f"{name}[{res.get('part_index')}]/{mode}: not exhausted within {o.tmo(tier)}s "
-                    f"({r.get('paths')} paths explored, none failing) {r.get('message','')[:160]}")
+                if r.get("gaps"):
+                    inconclusive.append(
+                        f"{name}[{res.get('part_index')}]/{mode}: the code under analysis left the environment model "
+                        f"({'; '.join(r['gaps'][:3])}): nothing is claimed for this partition")
+                else:
+                    inconclusive.append(
+                        f"{name}[{res.get('part_index')}]/{mode}: not exhausted within {o.tmo(tier)}s "
+                        f"({r.get('paths')} paths explored, none failing) {r.get('message','')[:160]}")
 
     # ---------------- report ----------------
     kmap = {k["id"]: k for k in known}
